@@ -1,7 +1,10 @@
 """C09 — traversal and locality helpers vs brute-force definitions (DESIGN §5 C09)."""
+import os, sys
+sys.path.insert(0, os.path.dirname(__file__))
+from _seed import seed_uw
 SRC = "C09_helpers.c"
-COMMON = dict(src=SRC, env=["vp_alloc.c", "vp_libc.c"], units=["hwloc/bitmap.c", "hwloc/traversal.c"], unwind=22, checks="safety", object_bits=11, timeout=1500,
-              unwindset={"strcmp.0": 2},
+COMMON = dict(src=SRC, env=["vp_alloc.c", "vp_libc.c"], units=["hwloc/bitmap.c", "hwloc/traversal.c"], unwind=14, checks="safety", object_bits=11, timeout=1500,
+              unwindset=seed_uw(**{"strcmp.0": 2}),
               stubs=["getenv: no environment variable set", "PCI locality, component registry, distances/memattrs/cpukinds internals: empty (the seeds have none)",
                      "realloc: unreachable in the symbolic phase (1-word bitmaps)"],
               assumptions=["allocation never fails", "query sets: any subset of bits 0..7, optionally with the infinite tail"])
